@@ -26,7 +26,11 @@ ASSUMPTIONS = [
 NAMES = [None, "n", "a b", " lead", "trail ", "Prüfstand-é", "7", "-", "x (version 07)", "x (version 07) y", "(version 99)",
          "12345-1234-1234-12 x",
          # names that only BEGIN like a numeric identifier (no blank after the version field): not ambiguous in the grammar
-         "12345-1234-1234-12x", "12345-1234-1234-123", "12345-1234-1234-12-"]
+         "12345-1234-1234-12x", "12345-1234-1234-123", "12345-1234-1234-12-",
+         # digits that are decimal digits in Unicode but not ASCII: such a name is a name, never the numeric scheme
+         "\uff11\uff12\uff13\uff14\uff15-\uff10\uff10\uff10\uff11-\uff10\uff10\uff10\uff12-\uff10\uff13 foo",
+         "\u0661\u0662\u0663\u0664\u0665-\u0660\u0660\u0660\u0661-\u0660\u0660\u0660\u0662-\u0660\u0663",
+         "x (version \uff10\uff15)"]
 TUPLES = [(0, 0, 0, 0), (99999, 9998, 9998, 99), (10234, 5678, 6789, 9)]
 FIELDS = {"customer": (0, 100000), "project": (1, 10000), "device": (2, 10000), "version": (3, 100)}
 BOUND = {"customer": [0, 1, 9998, 9999, 99999], "project": [0, 1, 9998, 9999], "device": [0, 1, 9998, 9999], "version": [0, 1, 9, 10, 99]}
